@@ -111,6 +111,9 @@ fn load_val(ty: &str, bytes: &[u8]) -> String {
         "wmc" => rep::<WMCore>(bytes),
         "optbv" => rep::<Option<BitVector>>(bytes),
         "optiv" => rep::<Option<IntVector>>(bytes),
+        "optsp" => rep::<Option<SparseVector>>(bytes),
+        "optwm" => rep::<Option<WaveletMatrix>>(bytes),
+        "optrl" => rep::<Option<RLVector>>(bytes),
         _ => panic!("harness: bad load type {}", ty),
     }
 }
